@@ -9,6 +9,8 @@ SEEDED = os.path.join(VERIF, "seeded")
 rows = []
 for mid in sorted(x for x in os.listdir(SEEDED) if os.path.isdir(os.path.join(SEEDED, x))):
     d = os.path.join(SEEDED, mid)
+    if os.path.exists(os.path.join(d, "retired.json")):
+        continue
     a = json.load(open(os.path.join(d, "author_meta.json")))
     c = json.load(open(os.path.join(d, "confirm.json")))
     t = json.load(open(os.path.join(d, "detect.json"))) if os.path.exists(os.path.join(d, "detect.json")) else {"checks": {}}
